@@ -195,7 +195,7 @@ def _p_start(self):
 
 def _p_join(self, timeout=None):
     evlog.ev("join_call", child=self.pid)
-    r = _S["orig"]["p_join"](self, timeout)
+    r = _S["orig"]["p_join"](self, None if timeout is None else timeout * _S["scale"])
     evlog.ev("join_ret", child=self.pid, alive=self.exitcode is None)
     return r
 
